@@ -2720,6 +2720,21 @@ fn generate_constraints_expr(
                     generate_constraints_expr(ctx, polyvar_scope, Mode::Syn, right);
                     constrain_to_iface(ctx, &ty_right, right.node(), &num_iface);
                     constrain(ctx, &ty_out, &ty_right);
+                    // `Num` has no negation, so a user type implementing it can't be negated
+                    if let Some(ty) = ty_right.solution()
+                        && !matches!(
+                            ty,
+                            SolvedType::Int | SolvedType::Float | SolvedType::Poly(..)
+                        )
+                        && ty.implements_iface(ctx, &num_iface.iface)
+                    {
+                        ctx.errors.push(Error::GenericWithNode {
+                            msg: format!(
+                                "Unary minus is only defined for `int` and `float`, not for `{ty}`"
+                            ),
+                            node: expr.node(),
+                        });
+                    }
                 }
                 PrefixOp::Not => {
                     generate_constraints_expr(
